@@ -161,3 +161,15 @@ Proof.
     destruct (mapM abs_key l) as [ks'|e]; cbn [bind]; [|discriminate].
     intros H. injection H as <-. constructor; [eapply abs_key_wf; eauto|apply IH; reflexivity].
 Qed.
+
+(* examples (non-vacuity): keys of a number, a text, a logical, an error code *)
+Example ex_kwf : kwf (0, VInt 1) /\ kwf (0, VFloat (5 # 2)) /\ kwf (1, VStr [97]) /\ kwf (2, VBool true)
+  /\ kwf (3, excelutil.c_DIV0).
+Proof.
+  unfold kwf. cbn [fst snd excelutil.c_DIV0].
+  split; [reflexivity|]. split; [reflexivity|]. split; [left; reflexivity|].
+  split; [reflexivity|right; reflexivity].
+Qed.
+Example ex_kle_chain : kle (0, VInt 1) (0, VFloat (5 # 2)) /\ kle (0, VFloat (5 # 2)) (1, VStr [97])
+  /\ kle (1, VStr [97]) (3, excelutil.c_DIV0).
+Proof. repeat split; vm_compute; reflexivity. Qed.
